@@ -318,7 +318,7 @@ class C08(runner.Check):
 
     def budget(self, tier):
         # (chunks, programs per chunk, release orders per program)
-        return (32, 16, 60) if tier == 'quick' else (64, 120, 200)
+        return (32, 40, 80) if tier == 'quick' else (64, 120, 200)
 
     def explore(self, tier, seed):
         nch, per, cap = self.budget(tier)
